@@ -31,6 +31,39 @@ def mp_erm(a, col):
     return float(mp.log(sum(mp.exp(-mp.mpf(a) * mp.mpf(float(x))) for x in col) / len(col)) / mp.mpf(a))
 
 
+def var_request(pf, N, shifted):
+    """driver request of value_at_risk: the branch is decided in floats exactly as the code does"""
+    if pf <= 1 / N:
+        br, lo, frac = "min", 0, F(0)
+    elif pf > 1 - 1 / N:
+        br, lo, frac = "max", 0, F(0)
+    else:
+        q = (pf - (1 / N)) / (1 - (1 / N))
+        pos = q * (N - 1)
+        lo = int(math.floor(pos))
+        br, frac = "q", F(pos) - lo
+    return {"op": "var", "branch": br, "lo": lo, "frac": rat_str(frac), "cols": enc_rat(shifted)}
+
+
+def qcvar_request(torch, lam, shifted):
+    """driver request of quadratic_cvar (shared bisection over the columns, precision as the code computes it) or None"""
+    N = len(shifted[0])
+    try:
+        xt = torch.tensor([[float(col[i]) for col in shifted] for i in range(N)], dtype=torch.float64)
+        cen = xt - xt.mean(dim=0, keepdim=True)
+        lower = torch.amin(-cen, dim=0, keepdim=True) - 1e-8
+        upper = torch.amax(-cen, dim=0, keepdim=True) + 1e-8
+        precision = 1e-6 * 10 ** int(math.log10((upper - lower).amax()))
+    except Exception:  # noqa
+        return None, None
+    return {"op": "qcvar", "lam": float_bits(lam), "tol": float_bits(1e-8), "precision": float_bits(precision),
+            "max_iter": 100000, "cols": enc_flt([[float(z) for z in col] for col in shifted])}, precision
+
+
+REUSE_NAME = {"es": "expected_shortfall", "var": "value_at_risk", "erm": "entropic_risk_measure", "eloss": "entropic_loss",
+              "iso": "isoelastic", "qcvar": "quadratic_cvar", "oce": "oce"}
+
+
 def check(ctx):
     torch, pfhedge = import_impl()
     import pfhedge.nn.functional as fnl
@@ -394,6 +427,190 @@ def check(ctx):
         if form == "module":
             reqs.append({"op": "iso", "a": float_bits(a), "a_is_one": a == 1.0, "cols": enc_flt(pos)})
             metas.append(("iso", case, got))
+    # ---------------- sessions: the SAME P&L tensor and the SAME target object are handed to several evaluations in a row (the same
+    # criterion again, or one criterion after another, as when several risk figures of one portfolio are reported).  Every returned value
+    # must be the definition evaluated on input - target of the data as the caller built it.  Targets: none, Python float / int,
+    # 0-dim tensor, full tensor, one amount per column (broadcast over the paths), one amount per path (broadcast over the columns);
+    # module (also a deep copy of it) and functional forms (dim=0 / default dim; without a target they receive the caller's tensor
+    # itself); samples that require grad (leaf tensors) included
+    import copy
+    import warnings
+    warnings.filterwarnings("ignore", message="Converting a tensor with requires_grad=True to a scalar")
+    from pfhedge.nn.modules.loss import OCE
+    for it in range(170 if ctx.tier == "quick" else 2500):
+        positive = g.chance(0.25)
+        N, M = g.small((1, 2, 3, 4, 5, 7, 8, 10, 16, 25)), g.small((1, 1, 2, 3))
+        kind = g.choice(["ties", "ties", "generic", "heavy", "mixed", "const"])
+        cols = gen_sample(g, N=N, M=M, kind=kind)["cols"]
+        if positive:
+            cols = [[abs(z) + F(17, 8) for z in col] for col in cols]
+        shp = "N" if (M == 1 and g.chance(0.6)) else ("NM1" if g.chance(0.2) else "NM")
+        x = torch.tensor([[float(cols[m][i]) for m in range(M)] for i in range(N)], dtype=torch.float64)
+        x = x[:, 0].contiguous() if shp == "N" else (x.reshape(N, M, 1) if shp == "NM1" else x)
+        tk = g.choice(["none", "float", "int", "scalar_tensor", "full", "full"] + (["column", "path"] if shp != "N" else []))
+        if tk == "none":
+            tq, target = [[F(0)] * N for _ in range(M)], None
+        elif tk in ("float", "int", "scalar_tensor"):
+            tv = g.choice([F(1), F(-2), F(1)]) if tk == "int" else g.choice([F(1, 2), F(-3, 4), F(2), F(1, 4)])
+            tq = [[tv] * N for _ in range(M)]
+            target = int(tv) if tk == "int" else (float(tv) if tk == "float" else torch.tensor(float(tv), dtype=torch.float64))
+        elif tk == "column":
+            tc = [g.dy(-2, 2, 2) for _ in range(M)]
+            tq = [[tc[m]] * N for m in range(M)]
+            target = torch.tensor([float(v) for v in tc], dtype=torch.float64).reshape(x.shape[1:])
+        elif tk == "path":
+            tp = [g.dy(-2, 2, 2) for _ in range(N)]
+            tq = [list(tp) for _ in range(M)]
+            target = torch.tensor([float(v) for v in tp], dtype=torch.float64).reshape((N,) + (1,) * (x.dim() - 1))
+        else:
+            tq = [[g.dy(-2, 2, 2) for _ in range(N)] for _ in range(M)]
+            target = torch.tensor([[float(tq[m][i]) for m in range(M)] for i in range(N)], dtype=torch.float64)
+            target = target[:, 0].contiguous() if shp == "N" else target.reshape(x.shape)
+        shifted = [[cols[m][i] - tq[m][i] for i in range(N)] for m in range(M)]
+        grad = g.chance(0.15)
+        if grad:
+            x.requires_grad_(True)
+        allowed = ["es", "var", "erm", "eloss", "qcvar", "qcvar", "oce"] + (["iso", "iso"] if positive else [])
+        same = g.chance(0.5)
+        first = g.choice(allowed)
+        sess = {"which": "session", "N": N, "M": M, "kind": kind, "positive": positive, "shape": list(x.shape), "target": tk,
+                "requires_grad": grad, "cols": enc_rat(cols), "targets": enc_rat(tq) if tk != "none" else None}
+        history = []
+        for step in range(3):
+            which = first if (same or step == 0) else g.choice(allowed)
+            name = REUSE_NAME[which]
+            form = "module" if which == "oce" else ("functional" if which == "var" else g.choice(["module", "module", "functional"]))
+            dimnone = form == "functional" and shp == "N" and which in ("es", "var", "qcvar") and g.chance(0.5)
+            copied = form == "module" and g.chance(0.25)
+            kw = {} if (dimnone or which not in ("es", "var", "qcvar")) else {"dim": 0}
+            w0 = ua = ub = uk = None
+            if which in ("es", "var"):
+                par = float(g.choice([F(1, 10), F(1, 4), F(1, 2), F(3, 10), F(1), F(1, N), F(g.randint(1, N), N), F(33, 100), F(999, 1000)]))
+                fn_ = fnl.expected_shortfall if which == "es" else fnl.value_at_risk
+                mod = nn.ExpectedShortfall(par) if which == "es" else None
+            elif which in ("erm", "eloss"):
+                par = g.choice([0.25, 1.0, 2.0, 1 / 64, 8.0])
+                fn_ = fnl.entropic_risk_measure if which == "erm" else (lambda v_, a_: -fnl.exp_utility(v_, a_).mean(0))
+                mod = nn.EntropicRiskMeasure(par) if which == "erm" else nn.EntropicLoss(par)
+            elif which == "iso":
+                par = g.choice([1.0, 0.5, 0.25, 0.75])
+                fn_ = lambda v_, a_: -fnl.isoelastic_utility(v_, a_).mean(0)
+                mod = nn.IsoelasticLoss(par)
+            elif which == "qcvar":
+                par = g.choice([1.0, 2.0, 10.0, 64.0])
+                fn_ = fnl.quadratic_cvar
+                mod = nn.QuadraticCVaR(par)
+            else:
+                uk = g.choice(["quad", "affine"])
+                ua, ub = g.choice([F(-1, 2), F(-1), F(-1, 4)]), g.choice([F(1), F(1, 2), F(2)])
+                w0 = g.dy(-1, 1, 2)
+                if uk == "quad":
+                    u = lambda t_, a=float(ua), b=float(ub): a * t_ * t_ + b * t_
+                    uf = lambda z, ua=ua, ub=ub: ua * z * z + ub * z
+                else:
+                    u = lambda t_, a=float(ub), b=float(ua): a * t_ + b
+                    uf = lambda z, ua=ua, ub=ub: ub * z + ua
+                mod = OCE(u)
+                with torch.no_grad():
+                    mod.w.copy_(torch.tensor(float(w0)))
+                mod = mod.to(torch.float64)
+                par = [uk, rat_str(ua if uk == "quad" else ub), rat_str(ub if uk == "quad" else ua), rat_str(w0)]
+            if copied:
+                mod = copy.deepcopy(mod)
+            history.append({"criterion": which, "form": form, "par": par, "dim": None if dimnone else 0, "copied": copied})
+            case = sess | {"steps": list(history), "step": step}
+            ctx.case(case, True, tag=f"session:{which}")
+            ctx.stats[f"session:target={tk}"] += 1
+            ctx.stats[f"session:step={step}"] += 1
+            ctx.traces += 1
+            if form == "module":
+                st, v, mut = call_impl(mod, x, target) if target is not None else call_impl(mod, x)
+            else:
+                st, v, mut = call_impl(fn_, x if target is None else x - target, par, **kw)
+            if mut:
+                ctx.mutated(which, mut, case)
+            if st != "ok":
+                ctx.fail(f"{name} raised on a valid sample (a tensor evaluated before / a leaf that requires grad)", case, key=f"{name}:reuse:error", detail=v)
+                break
+            v = v.detach()
+            if tuple(v.shape) != tuple(x.shape[1:]) or not all(math.isfinite(z) or which == "eloss" for z in flat(v)):
+                ctx.fail(f"{name}: the value does not have the trailing shape of the sample / is not finite", case, key=f"{name}:reuse:shape",
+                         detail={"shape": list(v.shape), "value": flat(v)[:8]})
+                break
+            got = flat(v)
+            okv, detail, key = True, None, f"{name}:reuse:value"
+            if which == "es":
+                pn = F(par) * N
+                border = abs(pn - round(pn)) <= F(1, 10 ** 9) and pn != round(pn)
+                k = math.ceil(par * N)
+                ks = {k} if not border else {math.floor(pn), math.ceil(pn), int(round(pn))} - {0}
+                exps = [[es_exact(kk, c) for c in shifted] for kk in ks]
+                gq = [F(z) for z in got]
+                okv = any(all(feq(a_, b_) for a_, b_ in zip(gq, e_)) for e_ in exps)
+                detail = {"impl": got, "definition": [float(e_) for e_ in exps[0]]}
+                reqs.append({"op": "es", "k": k, "cols": enc_rat(shifted)})
+                metas.append(("es", case, gq))
+            elif which == "var":
+                for col, gv in zip(shifted, got):
+                    kind_, exp = var_expected(par, col)
+                    tolv = 1e-12 * max(1.0, max(abs(float(z)) for z in col))
+                    if not ((kind_ in ("min", "max", "kth") and abs(gv - float(exp)) <= tolv) or
+                            (kind_ == "between" and float(exp[0]) - tolv <= gv <= float(exp[1]) + tolv) or
+                            (kind_ == "any" and any(abs(gv - float(e_)) <= tolv for e_ in exp))):
+                        okv, detail = False, {"impl": gv, "expected": str(exp), "level-class": kind_}
+                        break
+                reqs.append(var_request(par, N, shifted))
+                metas.append(("var", case, got))
+            elif which == "erm":
+                for col, gv in zip(shifted, got):
+                    exp = mp_erm(par, col)
+                    if not close(gv, exp, 1e-9, 1e-9 * max(1.0, abs(exp)) * 1e-3):
+                        okv, detail = False, {"impl": gv, "definition": exp}
+                        break
+            elif which == "eloss":
+                for col, gv in zip(shifted, got):
+                    exp = sum(sexp(-par * float(z)) for z in col) / len(col)
+                    if not close(gv, exp, 1e-10):
+                        okv, detail = False, {"impl": gv, "definition": exp}
+                        break
+            elif which == "iso":
+                for col, gv in zip(shifted, got):
+                    exp = -sum((math.log(float(z)) if par == 1.0 else float(z) ** (1 - par)) for z in col) / len(col)
+                    if not close(gv, exp, 1e-10):
+                        okv, detail = False, {"impl": gv, "definition": exp}
+                        break
+                reqs.append({"op": "iso", "a": float_bits(par), "a_is_one": par == 1.0, "cols": enc_flt([[float(z) for z in col] for col in shifted])})
+                metas.append(("iso", case, got))
+            elif which == "qcvar":
+                # the bisection is shared by the columns: its precision derives from the widest bracket
+                wide = max(float(max(col) - min(col)) for col in shifted) + 1e-8
+                prec = 1e-6 * 10 ** int(math.log10(2 * wide))
+                for col, gv in zip(shifted, got):
+                    exact, wstar = qcvar_exact(par, col)
+                    tol = par * (10 * prec) ** 2 + 1e-9 * max(1.0, abs(float(exact)))
+                    if not (abs(gv - float(exact)) <= tol):
+                        okv, detail = False, {"impl": gv, "minimum": float(exact), "w*": float(wstar)}
+                        if any(float(max(c_)) - float(sum(c_) / len(c_)) < 1 / (2 * par) for c_ in shifted):
+                            key = "quadratic_cvar:bracket-misses-root"
+                        break
+                rq, precision = qcvar_request(torch, par, shifted)
+                if rq is not None:
+                    reqs.append(rq)
+                    metas.append(("qcvar", case | {"lam": par, "precision": precision}, got))
+            else:
+                exp = [w0 - sum(uf(z + w0) for z in col) / len(col) for col in shifted]
+                gq = [F(z) for z in got]
+                okv = all(feq(a_, b_) for a_, b_ in zip(gq, exp))
+                detail = {"impl": got, "definition": [float(e_) for e_ in exp]}
+                reqs.append({"op": "oce", "u": par[:3], "w": par[3], "cols": enc_rat(shifted)})
+                metas.append(("oce", case, gq))
+            if which in ("erm", "eloss"):
+                reqs.append({"op": "erm", "a": float_bits(par), "cols": enc_flt([[float(z) for z in col] for col in shifted])})
+                metas.append((which, case, got))
+            if not okv:
+                ctx.fail(f"{name}: evaluation number {step + 1} on the same input / target tensors does not return the value its definition "
+                         "prescribes for input - target", case, key=key, detail=detail)
+                break
     try:
         outs = ctx.driver(reqs)
     except DriverBroken as e:
@@ -435,4 +652,6 @@ def check(ctx):
         rule="samples of length N in {1..33} with ties / constants / heavy tails / scales 2^-20..2^20, shapes (N,), (N,M), (N,M,1), scalar and tensor "
              "targets, functional (dim=0) and module forms; levels p with integral and non-integral pN incl. p<=1/N, p>1-1/N; a in 2^-6..8, |a x| up to 1e4; "
              "lam in {1,2,10,64}; isoelastic a in {1,1/4,1/2,3/4} also on wealth 1e-12..1e-6 and 1e6..1e12 (module, module with target, functional); "
+             "sessions of three evaluations on the same input / target objects (float, int, 0-dim, full, per-column and per-path targets, module "
+             "also deep-copied, functional dim=0 / default, leaf tensors that require grad); "
              "every case non-trivial; distinct = sha1 of canonical case")
